@@ -97,7 +97,7 @@ Proof.
         unfold pinv; cbn; repeat split; auto; discriminate.
     + (* SendH: the context is looked at first, nothing is published *)
       cbn in Hwf. cbn in Hpt.
-      cbn [w_step wr_over wr_s]. rewrite Hgone.
+      cbn [w_step wr_over wr_s].
       unfold w_SendHeader. cbn [fx_sendh_done fx_now andb]. rewrite Hdone. cbn.
       erewrite IH; [reflexivity | | reflexivity | reflexivity | exact Hwf | exact Hpt].
       unfold pinv; cbn; repeat split; auto.
@@ -251,7 +251,7 @@ Proof.
     + cbn in Hwf. cbn [w_step wr_over wr_s]. rewrite Hgone.
       destruct (md_empty h) eqn:Hh0; [|destruct ws]; cbn; rewrite ?Hh0; cbn;
         (eapply IH; [reflexivity | apply Hx' | reflexivity | exact Hwf]).
-    + cbn in Hwf. cbn [w_step wr_over wr_s]. rewrite Hgone.
+    + cbn in Hwf. cbn [w_step wr_over wr_s].
       unfold w_SendHeader. cbn [fx_sendh_done fx_now andb]. rewrite Hdone. cbn.
       eapply IH; [reflexivity | apply Hx' | reflexivity | exact Hwf].
     + cbn in Hwf. cbn. eapply IH; [reflexivity | apply Hx' | reflexivity | exact Hwf].
